@@ -180,6 +180,12 @@ func execFn(f []string) vlib.Res {
 		}
 		return vlib.Res{Impl: impl, Oracle: or, Tags: "nt"}
 	}
+	if f[1] == "new" {
+		switch f[0] {
+		case "mc", "mnz", "mttl", "nsttl", "lease", "rem":
+			return vlib.Res{Impl: "ok"} // case header of a stateless group (shrinker anchor)
+		}
+	}
 	switch f[0] {
 	case "mc":
 		a, ak, b, bk := parseT(f[1]), vlib.AtoU64(f[2]), parseT(f[3]), vlib.AtoU64(f[4])
@@ -434,6 +440,8 @@ func genFnCase(r *vlib.R, emit func(string)) int {
 			e(fmt.Sprintf("ac get %d", key))
 		}
 	case 2:
+		e("mc new")
+		e("mnz new")
 		for i := 0; i < 8; i++ {
 			a := genT(r, nil)
 			var around []int64
@@ -444,6 +452,8 @@ func genFnCase(r *vlib.R, emit func(string)) int {
 			e(fmt.Sprintf("mnz %s %s", a, genT(r, around)))
 		}
 	case 3:
+		e("mttl new")
+		e("nsttl new")
 		for i := 0; i < 6; i++ {
 			e("mttl " + genTTLs(r, true))
 			// NS RRset with possibly foreign-owner records mixed in
@@ -463,6 +473,7 @@ func genFnCase(r *vlib.R, emit func(string)) int {
 			e("nsttl " + strings.Join(p, ","))
 		}
 	case 4, 5: // lease computation
+		e("lease new")
 		for i := 0; i < 8; i++ {
 			obs := int64(r.Intn(100000)) * 1e9
 			ns := vlib.Pick(r, []int{0, 1, 2, 5, 60, 300, 3600, 43199, 43200, 43201, 86400, 172800})
@@ -495,6 +506,7 @@ func genFnCase(r *vlib.R, emit func(string)) int {
 			e(fmt.Sprintf("meta bound %s %d", t, r.Intn(9)))
 		}
 	default:
+		e("rem new")
 		for i := 0; i < 8; i++ {
 			stored := int64(r.Intn(1000)) * 1e9
 			ttl := vlib.Pick(r, []int64{5e9, 1e9, 60e9, 86400e9, 3600e9})
